@@ -107,6 +107,8 @@ def targets_for(n, tier):
         # evaluate / dr.add_dependency / evaluate again (the pair is filtered per shape in run_unit)
         ts += [["incr-subdict-then-full", list(m)] for k in (1, 2) for m in itertools.combinations(range(n), k)]
         ts += [["run-adddep-run", i, j] for i in range(n) for j in range(n) if i != j]
+        # ... the second evaluation through the component GROUP's graph (what dr.run() without arguments evaluates)
+        ts += [["run-adddep-rungroup", i, j] for i in range(n) for j in range(n) if i != j]
     if n == 4:
         ts = [["node", 3], ["dict"], ["pair", 2, 3], ["incr-dict"], ["incr-pair", 2, 3], ["incr-pair", 1, 3]]
     return ts
@@ -166,7 +168,7 @@ def check_case(case, res=None):
                 full = g.explicit_graph()
                 comps = dict((g.nodes[i], full[g.nodes[i]]) for i in tgt[1])
                 tix = None
-            elif tgt[0] == "run-adddep-run":
+            elif tgt[0] in ("run-adddep-run", "run-adddep-rungroup"):
                 comps = g.explicit_graph()
                 tix = list(range(n))
             else:
@@ -264,7 +266,7 @@ def check_case(case, res=None):
                     vio.append(("run:raises", "run_incremental returns", repr(ex), perm))
                 registry_intact("incremental evaluation of a partial graph")
                 evaluate(dict((c, set(dr.get_dependencies(c))) for c in g.nodes), set(range(n)))
-            elif tgt[0] == "run-adddep-run":
+            elif tgt[0] in ("run-adddep-run", "run-adddep-rungroup"):
                 # history: evaluate, register one more (acyclic) dependency through the public dr.add_dependency, evaluate again
                 evaluate(comps, in_graph)
                 i2, j2 = tgt[1], tgt[2]
@@ -279,7 +281,11 @@ def check_case(case, res=None):
                 desc_saved = desc["nodes"]
                 desc["nodes"] = desc2["nodes"]
                 try:
-                    evaluate(dict((c, set(dr.get_dependencies(c))) for c in g.nodes), set(range(n)))
+                    if tgt[0] == "run-adddep-rungroup":
+                        graph2 = dict((c, set(dr.COMPONENTS[dr.get_group(c)][c])) for c in g.nodes)
+                    else:
+                        graph2 = dict((c, set(dr.get_dependencies(c))) for c in g.nodes)
+                    evaluate(graph2, set(range(n)))
                 finally:
                     desc["nodes"] = desc_saved
             else:
@@ -374,9 +380,9 @@ def run_unit(unit, tier):
             for tgt in tlist:
                 if tgt[0] in ("subdict", "incr-pair", "all-pair", "incr-set", "incr-dict", "all-type") and sum(1 for d in devs if d != "value") > 1:
                     continue
-                if tgt[0] in ("incr-subdict-then-full", "run-adddep-run") and any(d != "value" for d in devs):
+                if tgt[0] in ("incr-subdict-then-full", "run-adddep-run", "run-adddep-rungroup") and any(d != "value" for d in devs):
                     continue
-                if tgt[0] == "run-adddep-run" and not _can_add_dependency(nodes, tgt[1], tgt[2]):
+                if tgt[0] in ("run-adddep-run", "run-adddep-rungroup") and not _can_add_dependency(nodes, tgt[1], tgt[2]):
                     continue
                 case = {"nodes": nodes, "target": tgt, "perm": None}
                 try:
